@@ -2,5 +2,5 @@
 from . import latfam, util
 
 globals().update(latfam.module('C20', util.theorems('C20'),
-    'contexts as C03; observation = Digraph.body parsed into node / head-label / tail-label / edge statements, label callbacks returning index tokens; non-trivial = >=3 concepts and a concept with >=2 labels',
-    extra_targets=[], partial=''))
+    'contexts as C03 (EXH(10) in the thorough tier); observation = Digraph.body parsed into node / head-label / tail-label / edge statements, label callbacks returning index tokens; non-trivial = >=3 concepts and a concept with >=2 labels',
+    extra_targets=[], partial='', exh=(9, 10)))
